@@ -104,6 +104,32 @@ inline Outcome call_driver(const Driver& d, Req& rq, Res& rs)
     return sim::guarded([&] { d.run(rq, rs); });
 }
 
+// Known findings (status "known" in known_findings.jsonl) arrive as a comma list in
+// the plan head; a violation whose signature is listed is reported as known and
+// does not end the run.
+inline std::set<std::string> known_set(const Plan& plan)
+{
+    std::set<std::string> k;
+    std::istringstream ks(plan.get("known"));
+    std::string t;
+    while(std::getline(ks, t, ',')) k.insert(t);
+    return k;
+}
+
+inline bool is_known(Result& res, const std::set<std::string>& known, const std::string& sig)
+{
+    if(!known.count(sig)) return false;
+    if(std::find(res.known.begin(), res.known.end(), sig) == res.known.end()) res.known.push_back(sig);
+    sim::stats().count("known." + sig);
+    return true;
+}
+
+inline bool memberless_message_with_block(const SchemaShape& sh, const Frame& f)
+{
+    const LevelShape& lv = sh.levels[(std::size_t)f.root.level];
+    return lv.fields.empty() && lv.groups.empty() && lv.data.empty() && !f.root.block.empty();
+}
+
 struct PlanBudget
 {
     explicit PlanBudget(long ms) { sim::set_cpu_budget_ms(ms); }
